@@ -48,11 +48,13 @@ struct Sim<'a> {
     splitby_trivial: usize,
     /// operations that re-used an item the API returned (move / take / dup of a non-empty treap)
     reuses: usize,
+    /// `insert_at` calls whose item carried a pending modification (hand-built, or the root item of a modified one-element treap)
+    pending_inserts: usize,
 }
 
 impl<'a> Sim<'a> {
     fn new(kind: Kind, own: bool, pol: u64, rng: &'a mut SplitMix64) -> Self {
-        Sim { kind, own, pol, ctr: 0, created: 0, seqs: Vec::new(), ops: Vec::new(), rng, tags: 0, restructs_after_tag: 0, max_size: 0, splitby_interior: 0, splitby_interior_big: 0, splitby_trivial: 0, reuses: 0 }
+        Sim { kind, own, pol, ctr: 0, created: 0, seqs: Vec::new(), ops: Vec::new(), rng, tags: 0, restructs_after_tag: 0, max_size: 0, splitby_interior: 0, splitby_interior_big: 0, splitby_trivial: 0, reuses: 0, pending_inserts: 0 }
     }
     fn prio(&mut self) -> String {
         if self.own {
@@ -256,6 +258,41 @@ impl<'a> Sim<'a> {
         }
         self.seqs.push(c);
     }
+    fn tag_str(&self, t: Tag) -> String {
+        match self.kind {
+            Kind::Sum | Kind::Key => format!("{}", t.1),
+            Kind::Aff => format!("{} {}", t.0, t.1),
+        }
+    }
+    /// `let mut it = Item::new(v); it.modify(t); ts[i].insert_at(k, it)`: the item carries a pending modification
+    fn p_inserttag(&mut self, i: usize, k: usize, v: i64, t: Tag) {
+        let p = self.prio();
+        let m = self.tag_str(t);
+        self.ops.push(format!("inserttag {} {} {} {} {}", i, k, v, p, m));
+        let kk = k.min(self.seqs[i].len());
+        self.seqs[i].insert(kk, t.0 * v + t.1);
+        self.created += 1;
+        self.pending_inserts += 1;
+        self.restruct();
+    }
+    /// the item at the root of the one-element treap `i` (read through the public `root` field: taken out or cloned)
+    /// goes to `ts[j].insert_at(pos, it)`; nothing happens when `ts[i].size() != 1`
+    fn p_moveroot(&mut self, i: usize, take: bool, j: usize, pos: usize) {
+        let p = self.prio();
+        self.ops.push(format!("moveroot {} {} {} {} {}", i, if take { "take" } else { "clone" }, j, pos, p));
+        if self.seqs[i].len() == 1 {
+            let x = self.seqs[i][0];
+            if take {
+                self.seqs[i].clear();
+            }
+            let at = pos.min(self.seqs[j].len());
+            self.seqs[j].insert(at, x);
+            self.created += 1;
+            self.reuses += 1;
+            self.pending_inserts += 1;
+        }
+        self.restruct();
+    }
     fn p_collect2(&mut self, i: usize, j: usize) {
         self.ops.push(format!("collect2 {} {}", i, j));
     }
@@ -292,6 +329,22 @@ impl<'a> Sim<'a> {
         }
         self.p_merge(i, n - 1);
         self.p_merge(i, n - 2);
+    }
+    /// cut the element at `a` out of treap `i`, attach one or two modifications to that one-element treap, and put it
+    /// back at `pos` with `insert_at` of the ROOT ITEM (taken out of / cloned off the public `root` field): the item
+    /// still carries what was attached
+    fn root_move(&mut self, i: usize, a: usize, pos: usize, t1: Tag, t2: Option<Tag>, take: bool) {
+        self.p_splitat(i, a + 1);
+        self.p_splitat(i, a);
+        let n = self.seqs.len();
+        self.p_tag(n - 1, t1);
+        if let Some(t2) = t2 {
+            self.p_tag(n - 1, t2);
+        }
+        self.p_merge(i, n - 2);
+        // the one-element treap is now at index n - 2
+        self.p_moveroot(n - 2, take, i, pos);
+        self.p_drop(n - 2);
     }
     /// split at `k` and merge the halves the other way round
     fn rotate(&mut self, i: usize, k: usize) {
@@ -592,6 +645,81 @@ fn exhaustive_key_case(focus: &str, ps: &[u64], k: usize, variant: usize, rng: &
     s.line(focus, None)
 }
 
+/// (i'') `insert_at` — the REAL call, rlib draws the new node's priority — of an item that carries a pending
+/// modification, into treaps whose nodes have the priorities 0 / u32::MAX (every assignment `[n] -> {0, MAX}`): the new
+/// node is linked ABOVE every MAX neighbour (it gets children at insertion time) and below every 0 one. Every position,
+/// both sized items, three sources of the item (hand-built `new` + `modify`; the root item of a twice-modified
+/// one-element treap taken out of / cloned off the public `root` field), a pending modification on the receiving
+/// treap as well; afterwards every pushing walk (collect, first, last, split_at, remove_at).
+fn exhaustive_pending(focus: &str, n_max: usize, emit: &mut dyn FnMut(String), st: &mut Stats, rng: &mut SplitMix64) {
+    for n in 1..=n_max {
+        for code in 0..(1u64 << n) {
+            let ps: Vec<u64> = (0..n).map(|i| if (code >> i) & 1 == 1 { PMAX } else { 0 }).collect();
+            for k in 0..=n {
+                for kind in [Kind::Sum, Kind::Aff] {
+                    for source in 0..3 {
+                        let mut s = Sim::new(kind, true, 0, rng);
+                        let vals: Vec<i64> = (0..n).map(|i| (i as i64 + 1) * 3 - 7).collect();
+                        for i in 0..n {
+                            s.ops.push(format!("item {} {}", vals[i], ps[i]));
+                            s.seqs.push(vec![vals[i]]);
+                            if i > 0 {
+                                s.p_merge(0, 1);
+                            }
+                        }
+                        // scratch creations move the thread's priority stream (the case runs on a fresh thread)
+                        for _ in 0..(code + k as u64) % 4 {
+                            s.p_item(0);
+                            s.p_drop(1);
+                        }
+                        let mut t0 = s.tag();
+                        if t0.0 == 0 {
+                            t0.0 = -1;
+                        }
+                        if source != 1 {
+                            s.p_tag(0, t0);
+                        }
+                        let mut t1 = s.tag();
+                        if t1.0 == 0 {
+                            t1.0 = 1;
+                        }
+                        if t1.0 == 1 && t1.1 == 0 {
+                            t1.1 = 5;
+                        }
+                        let t2 = s.tag();
+                        let v = 11 + k as i64;
+                        match source {
+                            0 => s.p_inserttag(0, k, v, t1),
+                            _ => {
+                                s.p_item(v);
+                                s.p_tag(1, t1);
+                                s.p_tag(1, t2);
+                                s.p_moveroot(1, source == 1, 0, k);
+                                s.p_obs("size", 1);
+                                s.p_drop(1);
+                            }
+                        }
+                        s.p_obs("agg", 0);
+                        s.p_obs("collect", 0);
+                        s.p_obs("first", 0);
+                        s.p_obs("last", 0);
+                        s.p_splitat(0, k);
+                        s.p_obs("agg", 0);
+                        s.p_obs("agg", 1);
+                        s.p_obs("collect", 1);
+                        s.p_merge(0, 1);
+                        s.p_remove(0, k);
+                        s.p_obs("collect", 0);
+                        s.p_obs("agg", 0);
+                        emit(s.line(focus, Some((code + k as u64) % 6)));
+                        st.bump(&format!("exhaustive_real_insert_at_of_item_with_pending_tag_n{}", n));
+                    }
+                }
+            }
+        }
+    }
+}
+
 fn bucket(n: usize) -> &'static str {
     match n {
         0..=3 => "000-003",
@@ -638,7 +766,7 @@ fn random_history(focus: &str, kind: Kind, own: bool, target: usize, rng: &mut S
         let n = s.seqs[i].len();
         let can_create = s.created < max_items;
         let growing = s.total() < target && can_create;
-        let roll = if growing && s.rng.chance(7, 10) { 0 } else { s.rng.below(25) };
+        let roll = if growing && s.rng.chance(7, 10) { 0 } else { s.rng.below(29) };
         if set_mode {
             match roll {
                 0..=6 if can_create => {
@@ -852,6 +980,29 @@ fn random_history(focus: &str, kind: Kind, own: bool, target: usize, rng: &mut S
                 s.p_collect2(i, j);
                 st.bump("op_collect_into_two");
             }
+            25 | 26 if can_create && (kind == Kind::Sum || n < 90) => {
+                // `insert_at` of a hand-built item that carries a pending modification
+                let v = s.val();
+                let t = s.tag();
+                let k = if ood && s.rng.chance(1, 4) {
+                    is_ood = true;
+                    n + 1 + s.rng.below(3) as usize
+                } else {
+                    s.rng.below(n as u64 + 1) as usize
+                };
+                s.p_inserttag(i, k, v, t);
+                st.bump("op_insert_item_with_pending_tag");
+            }
+            27 | 28 if n > 0 && live < 5 && can_create && (kind == Kind::Sum || n < 90) => {
+                // the root item of a modified one-element part goes back in through `insert_at`
+                let a = s.rng.below(n as u64) as usize;
+                let take = s.rng.chance(1, 2);
+                let pos = s.rng.below(n as u64) as usize;
+                let t1 = s.tag();
+                let t2 = if s.rng.chance(1, 2) { Some(s.tag()) } else { None };
+                s.root_move(i, a, pos, t1, t2, take);
+                st.bump(if take { "op_insert_root_item_taken_with_pending_tag" } else { "op_insert_root_item_cloned_with_pending_tag" });
+            }
             _ => {}
         }
     }
@@ -868,6 +1019,9 @@ fn random_history(focus: &str, kind: Kind, own: bool, target: usize, rng: &mut S
     }
     if s.reuses > 0 {
         st.bump("histories_reusing_a_returned_item");
+    }
+    if s.pending_inserts > 0 {
+        st.bump(if own { "histories_own_inserting_an_item_with_a_pending_tag" } else { "histories_ctl_inserting_an_item_with_a_pending_tag" });
     }
     st.bump(&format!("histories_{}_{}", kind.name(), if own { "own" } else { "ctl" }));
     if set_mode {
@@ -1082,18 +1236,21 @@ pub fn gen(args: &Args, emit: &mut dyn FnMut(String), st: &mut Stats) {
         if thorough {
             exhaustive("C03", 5, 5, emit, st, &mut rng);
             exhaustive_extreme("C03", 4, emit, st, &mut rng);
+            exhaustive_pending("C03", 5, emit, st, &mut rng);
             random_batch("C03", false, 90_000, 12_000, 3_000, &mut rng, emit, st);
             random_batch("C03", true, 22_000, 4_000, 1_000, &mut rng, emit, st);
             key_batch("C03", 8_000, 2_000, &mut rng, emit, st);
         } else if small {
             exhaustive("C03", 3, 4, emit, st, &mut rng);
             exhaustive_extreme("C03", 2, emit, st, &mut rng);
+            exhaustive_pending("C03", 2, emit, st, &mut rng);
             random_batch("C03", false, 400, 60, 20, &mut rng, emit, st);
             random_batch("C03", true, 100, 16, 4, &mut rng, emit, st);
             key_batch("C03", 60, 20, &mut rng, emit, st);
         } else {
             exhaustive("C03", 4, 5, emit, st, &mut rng);
             exhaustive_extreme("C03", 3, emit, st, &mut rng);
+            exhaustive_pending("C03", 3, emit, st, &mut rng);
             random_batch("C03", false, 2_000, 300, 100, &mut rng, emit, st);
             random_batch("C03", true, 500, 80, 20, &mut rng, emit, st);
             key_batch("C03", 300, 100, &mut rng, emit, st);
@@ -1103,6 +1260,7 @@ pub fn gen(args: &Args, emit: &mut dyn FnMut(String), st: &mut Stats) {
         if thorough {
             exhaustive("C16", 4, 5, emit, st, &mut rng);
             exhaustive_extreme("C16", 4, emit, st, &mut rng);
+            exhaustive_pending("C16", 3, emit, st, &mut rng);
             random_batch("C16", false, 20_000, 3_000, 1_000, &mut rng, emit, st);
             random_batch("C16", true, 2_500, 400, 100, &mut rng, emit, st);
             key_batch("C16", 2_000, 500, &mut rng, emit, st);
@@ -1115,6 +1273,7 @@ pub fn gen(args: &Args, emit: &mut dyn FnMut(String), st: &mut Stats) {
         } else {
             exhaustive("C16", 3, 4, emit, st, &mut rng);
             exhaustive_extreme("C16", 3, emit, st, &mut rng);
+            exhaustive_pending("C16", 2, emit, st, &mut rng);
             random_batch("C16", false, 600, 150, 50, &mut rng, emit, st);
             random_batch("C16", true, 120, 25, 5, &mut rng, emit, st);
             key_batch("C16", 100, 30, &mut rng, emit, st);
